@@ -577,7 +577,7 @@ where
         let inner = Arc::new(RwLock::new(Some(MirroredHashSetInner {
             hs: self.take_initial().unwrap_or_default(),
             complete: self.is_complete(),
-            done: self.is_done(),
+            done: self.is_complete() && self.is_done(),
             error: None,
             max_size,
         })));
